@@ -30,7 +30,8 @@ def run(ctx, report):
     report.section("SAMI language classes", sami_language_classes, ctx, report)
     report.section("SAMI paragraph language", sami_paragraph_language, ctx, report)
     from . import markup_writer_fold
-    report.section("written documents", markup_writer_fold.run, ctx, report, {"langs": ("R-DOC-LANGS", "1")})
+    report.section("written documents", markup_writer_fold.run, ctx, report, {"langs": ("R-DOC-LANGS", "1"),
+                                                                              "sami_langs": ("R-DOC-LANGS", "1")})
     from . import dfxp_reader_fold
     report.section("generated DFXP documents", dfxp_reader_fold.run, ctx, report, {"langs": ("R-DOC-LANGS", "3")})
     from . import sami_reader_fold
@@ -107,12 +108,20 @@ def labels(ctx, report):
                          {"uses": uses, "mismatches": bad}, "2")
     if n < 6:
         raise AnalysisError(f"R-LABEL: only {n} language loops with lookups found (floor 6)")
-    # SAMI reader: paragraphs are selected with the language they are stored under
+    report.structural_section("SAMI paragraph selection", "R-DOC-LANGS / R-DOC-CUES on the folded SAMI documents (sami_reader_fold: "
+                              "languages whose codes are prefixes of each other included)", sami_selection, ctx, report)
+
+
+def sami_selection(ctx, report):
+    """SAMI reader: paragraphs are selected with the language they are stored under.  Recognises the selector spelled as an
+    f-string over `language` with an equality or dash-match operator; any other spelling is left to the fold."""
     tl = ctx.index.get_function("pycaption/sami.py", "SAMIReader._translate_lang")
     sel = [c for c in walk_no_nested(tl.node) if isinstance(c, ast.Call) and isinstance(c.func, ast.Attribute)
            and c.func.attr in ("select", "find_all")]
-    ok = len(sel) == 1 and re.search(r"lang\|?=\{language\}", src(sel[0])) is not None
-    report.check(ok, "R-LABEL", tl, "the paragraphs of a language are selected by that language's code",
+    if len(sel) != 1 or not re.search(r"lang\s*[~|^$*]?=\s*\\?[\"']?\{language\}", src(sel[0])):
+        raise AnalysisError("SAMIReader._translate_lang: paragraph selector not recognised")
+    op = re.search(r"lang\s*([~|^$*]?=)", src(sel[0])).group(1)
+    report.check(op in ("=", "|="), "R-LABEL", tl, "the paragraphs of a language are selected by that language's code",
                  [short(c) for c in sel], "2")
 
 
